@@ -25,6 +25,7 @@ import (
 	"net"
 	"net/url"
 	"strings"
+	"unicode/utf8"
 )
 
 var errInvalidWebDIDURL = errors.New("URL does not represent a Web DID")
@@ -36,11 +37,9 @@ var errInvalidWebDIDURL = errors.New("URL does not represent a Web DID")
 // - https://localhost:3000/alice -> did:web:localhost%3A3000:alice
 // - https://nodeA/iam/5/ -> did:web:nodeA:iam:5
 func URLToDID(u url.URL) (*did.DID, error) {
-	path := u.Path
-	if u.RawPath != "" {
-		// In case the path contains encoded characters, RawPath must be used. But it's only populated in this case.
-		path = u.RawPath
-	}
+	// The escaped form must be used: it keeps encoded characters (RawPath, only populated if there are any)
+	// and encodes the characters a DID can't contain as is (e.g. space, non-ASCII).
+	path := u.EscapedPath()
 	path, _ = strings.CutSuffix(path, "/.well-known/did.json")
 	path, _ = strings.CutSuffix(path, "/did.json")
 	parts := strings.Split(path, "/")
@@ -157,14 +156,15 @@ func percentEncodeString(s string) string {
 	}
 	result := make([]byte, length)
 	j := 0
-	for _, c := range s {
+	for i := 0; i < len(s); i++ {
+		c := s[i]
 		if shouldPercentEncode(c) {
 			result[j] = '%'
 			result[j+1] = upperhex[c>>4]
 			result[j+2] = upperhex[c&15]
 			j += 3
 		} else {
-			result[j] = byte(c)
+			result[j] = c
 			j++
 		}
 	}
@@ -173,8 +173,8 @@ func percentEncodeString(s string) string {
 
 func lengthAfterPercentEncoding(s string) int {
 	var count int
-	for _, c := range s {
-		if shouldPercentEncode(c) {
+	for i := 0; i < len(s); i++ {
+		if shouldPercentEncode(s[i]) {
 			count += 3
 		} else {
 			count++
@@ -183,7 +183,11 @@ func lengthAfterPercentEncoding(s string) int {
 	return count
 }
 
-func shouldPercentEncode(c rune) bool {
+func shouldPercentEncode(c byte) bool {
+	if c >= utf8.RuneSelf {
+		// bytes of non-ASCII characters
+		return true
+	}
 	switch c {
 	case '~', '!', '$', '&', '\'', '(', ')', '*', '+', ',', ';', '=', ':', '@':
 		return true
